@@ -39,9 +39,10 @@ deriving Repr, DecidableEq
 /-- `data.extend(bytes); lct::inc_hdr_len(data, n)` -/
 def extendInc (data bytes : List Nat) (n : Nat) : Rs (List Nat) := incHdrLen (data ++ bytes) n
 
-/-- `push_fdt(data, version, fdt_id)`: `192 << 24 | version << 20 | fdt_id` (u32 OR: fdt_id ≥ 2^20 overlaps) -/
+/-- `push_fdt(data, version, fdt_id)`: `192 << 24 | version << 20 | (fdt_id & 0xFFFFF)`
+    (the mask is the repair of D37: an id ≥ 2^20 overwrote the version and HET bits) -/
 def pushFdt (data : List Nat) (version fdtId : Nat) : Rs (List Nat) :=
-  extendInc data (beBytes 4 ((192 <<< 24) ||| (version <<< 20) ||| fdtId)) 1
+  extendInc data (beBytes 4 ((192 <<< 24) ||| (version <<< 20) ||| (fdtId % 2^20))) 1
 
 /-- `push_cenc(data, cenc)` -/
 def pushCenc (data : List Nat) (cenc : Nat) : Rs (List Nat) :=
